@@ -402,6 +402,19 @@ class SpecModel:
                 else:
                     continue
                 cls.ns[k] = IntEnumMember(cls, k, n)
+        # a base's __init_subclass__ hook runs when the class object is created (before the decorators see it)
+        for b in cls.mro()[1:]:
+            hook = b.ns.get("__init_subclass__") if isinstance(b, ClassV) else None
+            if isinstance(hook, FuncV):
+                hargs = hook.node.args
+                henv = dict(self.envs.get(hook.module.name, {}))
+                if hargs.args:
+                    henv[hargs.args[0].arg] = cls
+                body = [s_ for s_ in hook.node.body if not (isinstance(s_, ast.Expr) and isinstance(s_.value, ast.Constant))]
+                r = self.exec_body(body, henv, hook.module)
+                if r is not None and isinstance(r[1], Opaque):
+                    raise AnalysisError(f"{mod.relpath}: __init_subclass__ of {b.name} cannot be evaluated for {cls.name}: {r[1].reason}")
+                break
         # decorators, innermost first
         for d in reversed(node.decorator_list):
             cls = self.apply_class_decorator(d, cls, env, mod)
@@ -760,9 +773,6 @@ class SpecModel:
             return self.pure(f.node.body, env, mod)
         if isinstance(f, FuncV):
             body = [s for s in f.node.body if not (isinstance(s, ast.Expr) and isinstance(s.value, ast.Constant))]
-            if not body or not isinstance(body[-1], ast.Return) or body[-1].value is None or not all(
-                    isinstance(s, ast.Assign) and len(s.targets) == 1 and isinstance(s.targets[0], ast.Name) for s in body[:-1]):
-                return Opaque(f"function {f.node.name} is not straight-line bindings + return")
             a = f.node.args
             params = [x.arg for x in a.args] + [x.arg for x in a.kwonlyargs]
             env = dict(self.envs.get(f.module.name, {}))
@@ -778,10 +788,67 @@ class SpecModel:
                 env[k] = v
             if a.vararg:
                 env[a.vararg.arg] = TupleV(list(args[len(a.args):]))
-            for s in body[:-1]:
-                env[s.targets[0].id] = self._eval(s.value, env, f.module, None)
-            return self._eval(body[-1].value, env, f.module, None)
+            r = self.exec_body(body, env, f.module)
+            return r[1] if r is not None else None
         return Opaque("call of non-function")
+
+    def exec_body(self, stmts, env, mod, self_cls=None):
+        """run the statements of a small table-building function / class hook: name bindings, `cls.attr = value`, if / else on
+        foldable tests, return.  -> ("return", value) or None (fell off the end); anything else makes the result Opaque."""
+        for st in stmts:
+            if isinstance(st, ast.Expr) and isinstance(st.value, ast.Constant):
+                continue
+            if isinstance(st, ast.Expr) and isinstance(st.value, ast.Call) and norm(st.value.func).startswith("super()."):
+                continue   # object's hooks do nothing
+            if isinstance(st, ast.Pass):
+                continue
+            if isinstance(st, ast.Return):
+                return ("return", self._eval(st.value, env, mod, None) if st.value is not None else None)
+            if isinstance(st, ast.Assign) and len(st.targets) == 1 and isinstance(st.targets[0], ast.Name):
+                env[st.targets[0].id] = self._eval(st.value, env, mod, None)
+                continue
+            if isinstance(st, ast.Assign) and len(st.targets) == 1 and isinstance(st.targets[0], ast.Attribute) \
+                    and isinstance(st.targets[0].value, ast.Name) and isinstance(env.get(st.targets[0].value.id), ClassV):
+                env[st.targets[0].value.id].ns[st.targets[0].attr] = self._eval(st.value, env, mod, None)
+                continue
+            if isinstance(st, ast.If):
+                t = self.hook_test(st.test, env, mod)
+                if isinstance(t, Opaque):
+                    return ("return", Opaque(f"unfoldable test `{norm(st.test)[:60]}`"))
+                r = self.exec_body(st.body if t else st.orelse, env, mod)
+                if r is not None:
+                    return r
+                continue
+            return ("return", Opaque(f"unmodelled statement `{norm(st).splitlines()[0][:60]}`"))
+        return None
+
+    def hook_test(self, test, env, mod):
+        if isinstance(test, ast.BoolOp):
+            vals = [self.hook_test(v, env, mod) for v in test.values]
+            if any(isinstance(v, Opaque) for v in vals):
+                return Opaque("unfoldable operand")
+            return all(vals) if isinstance(test.op, ast.And) else any(vals)
+        if isinstance(test, ast.UnaryOp) and isinstance(test.op, ast.Not):
+            v = self.hook_test(test.operand, env, mod)
+            return v if isinstance(v, Opaque) else not v
+        if isinstance(test, ast.Compare) and len(test.ops) == 1 and isinstance(test.ops[0], (ast.In, ast.NotIn)) \
+                and isinstance(test.left, ast.Constant) and isinstance(test.comparators[0], ast.Call) \
+                and norm(test.comparators[0].func) == "vars" and len(test.comparators[0].args) == 1:
+            c = self._eval(test.comparators[0].args[0], env, mod, None)
+            if isinstance(c, ClassV):
+                r = test.left.value in c.ns     # the class's own namespace
+                return r if isinstance(test.ops[0], ast.In) else not r
+        if isinstance(test, ast.Call) and norm(test.func) == "hasattr" and len(test.args) == 2 and isinstance(test.args[1], ast.Constant):
+            c = self._eval(test.args[0], env, mod, None)
+            if isinstance(c, ClassV):
+                return c.has(test.args[1].value)  # looked up along the bases
+        if isinstance(test, ast.Attribute) or isinstance(test, ast.Name):
+            v = self._eval(test, env, mod, None)
+            return v if isinstance(v, Opaque) else bool(v)
+        try:
+            return bool(self.pure(test, env, mod))
+        except AnalysisError:
+            return Opaque("unfoldable test")
 
     # pure-expression evaluator for the filter lambdas (constant folding of declarative code)
     def pure(self, node, env, mod):
